@@ -57,10 +57,10 @@ def r_pairing(ctx):
                 if depth != 0 and not is_err:
                     bad = 'depth %+d at return on path [%s]' % (depth, cond_str(p.conds)[:200])
         ctx.ob(rid, 'paired:' + path, bad is None, 'scope depth restored on all %d returning paths' % npaths, fn.where(), bad)
-    ctx.floor(rid, 'push sites in ast.rs', n_push['ast'], 5)
-    ctx.floor(rid, 'pop sites in ast.rs', n_pop['ast'], 5)
-    ctx.floor(rid, 'push sites in compile.rs', n_push['compile'], 3)
-    ctx.floor(rid, 'pop sites in compile.rs', n_pop['compile'], 3)
+    ctx.floor(rid, 'push sites in ast.rs', n_push['ast'], 3)
+    ctx.floor(rid, 'pop sites in ast.rs', n_pop['ast'], 3)
+    ctx.floor(rid, 'push sites in compile.rs', n_push['compile'], 2)
+    ctx.floor(rid, 'pop sites in compile.rs', n_pop['compile'], 2)
     # compile: the block pop is unconditional (no `?` between push and pop)
     fn = ctx.anchor(fx, 'compile::<impl ast::Expression>::compile')
     ok = True
